@@ -26,7 +26,8 @@ PFAIL_ROUTE = [
 # rejected trace event -> property whose ledger rule rejected it
 EVENT_ROUTE = [
     (r"^T \d+ begin ", "C01"),
-    (r"^T \d+ h pool\.count|^T \d+ h pool\.resize\.end|^T \d+ quiesce|^T \d+ h pool\.dtor\.end", "C08"),
+    (r"^T \d+ h pool\.dtor\.end|^T \d+ ret pooldtor", "C01"),
+    (r"^T \d+ h pool\.count|^T \d+ h pool\.resize\.end|^T \d+ quiesce", "C08"),
     (r"^T \d+ h ts\.zero|^T \d+ ret wait|^T \d+ h ts\.dec|^T \d+ h ts\.inc", "C02"),
     (r"^T \d+ h ts\.inline|^T \d+ h ts\.guard|^T \d+ ret cancel", "C04"),
     (r"^T \d+ h ts\.capture|^T \d+ h ts\.rethrow", "C05"),
